@@ -600,6 +600,45 @@ class World:
         self._derive(op, srcs, op["dst"], lambda *ms: model.compose(kind, list(ms)),
                      mk_real, "compose", {"C17"})
 
+    def op_bad_derive(self, op):
+        """F1 for derivations: an ill-formed request (a list of pieces that
+        contains something that is no graph, an unknown atom, a source that is
+        no graph).  Whatever the call does - raise, as a rule - is not judged
+        and its result is thrown away; the graphs it was given must be left
+        alone, and every later operation is judged as usual (a derivation that
+        fails half way must not leave anything behind in the process)."""
+        srcs = [s for s in op.get("srcs", []) if self.graph(s) is not None]
+        what = op["what"]
+        self.stats["fault:F1:derivation:" + what] += 1
+        if not self.real_enabled or not srcs:
+            return
+        R = self.R
+        cls = R.CLS[op["cls"]]
+        reals = [self.slots[s].real for s in srcs]
+        junk = {"none": None, "int": 7, "str": "C"}[op.get("junk", "none")]
+
+        def call():
+            if what == "compose":
+                parts = list(reals)
+                parts.insert(op.get("pos", 0) % (len(parts) + 1), junk)
+                return cls.compose(parts)
+            if what == "ctor":
+                return cls(junk)
+            if what == "subgraph":
+                ats = list(reals[0].atoms)
+                return reals[0].subgraph(ats[:2] + [op.get("unknown", 10 ** 9)])
+            if what == "from_graphs":
+                return cls.from_graphs(reals[0], junk)
+            return None
+        try:
+            R.guarded(call)
+        except BaseException as e:  # noqa: BLE001
+            if isinstance(e, (KeyboardInterrupt, SystemExit)):
+                raise
+        for s in srcs:
+            self.coherent(s, {"C10"}, "bad_derive:" + what, what="source")
+        self.check_others(set(srcs), "bad_derive")
+
     def op_enantiomer(self, op):
         def mk_model(m):
             return model.enantiomer(m) if m.is_stereo else None
